@@ -144,3 +144,11 @@ type M1 struct {
 	Mm map[string]int
 	Mn int
 }
+
+// E4 embeds E3 by value BEHIND leading members: two levels of by-value embedding when E4 itself is embedded.
+type E4 struct {
+	Ha int
+	Hb string
+	E3
+	Hz bool
+}
